@@ -14,7 +14,7 @@ gap).  Results: .work/mutscan/results.jsonl (resumable); summary: seeded/MUTSCAN
 
 usage: tools/mutscan.py [--n 200] [--seed 1] [--par 4] [--files glob,...] [--list]
 """
-import argparse, ast, copy, fnmatch, hashlib, json, os, random, subprocess, sys, threading
+import argparse, signal, ast, copy, fnmatch, hashlib, json, os, random, subprocess, sys, threading
 import concurrent.futures as cf
 
 VERIF = os.path.dirname(os.path.dirname(os.path.abspath(__file__)))
@@ -188,10 +188,18 @@ def enumerate_mutants(files_glob):
 
 
 def sh(cmd, cwd=None, env=None, timeout=3000):
+    # own session, so that a time-out takes the forked shards of a check down with it
+    p = subprocess.Popen(cmd, cwd=cwd, env=env, stdout=subprocess.PIPE, stderr=subprocess.STDOUT,
+                         text=True, start_new_session=True)
     try:
-        p = subprocess.run(cmd, cwd=cwd, env=env, capture_output=True, text=True, timeout=timeout)
-        return p.returncode, p.stdout + p.stderr
+        out, _ = p.communicate(timeout=timeout)
+        return p.returncode, out
     except subprocess.TimeoutExpired as e:
+        try:
+            os.killpg(p.pid, signal.SIGKILL)
+        except OSError:
+            pass
+        p.communicate()
         return 124, "TIMEOUT " + str(e)
 
 
@@ -261,7 +269,7 @@ def run_one(m, jobs):
         env2.pop("PYTHONPATH", None)
         tried = []
         for cid in checks_for(rel):
-            rc, out = sh([VERIF + "/check", cid, "--tier", "quick"], cwd=VERIF, env=env2, timeout=3000)
+            rc, out = sh([VERIF + "/check", cid, "--tier", "quick"], cwd=VERIF, env=env2, timeout=420)
             viol = [l for l in out.splitlines() if l.startswith("VIOLATION")]
             tried.append([cid, rc])
             if rc == 1 and viol:
